@@ -196,4 +196,5 @@ func replay[C comparable](ops cellOps[C], t transition, zeroSingles bool) (res a
 	}
 	return res, nx, diff
 }
+
 type kitRingT = kitring.Ring[int]
